@@ -45,6 +45,7 @@ type Swarm struct {
 	router  *mesh.Router          // The mesh router.
 	gossip  mesh.Gossip           // The gossip protocol.
 	members *memberlist           // The memberlist of peers.
+	local   sync.Map              // The subscriptions this broker has announced and not withdrawn.
 
 	OnSubscribe   func(message.Subscriber, *event.Subscription) bool // Delegate to invoke when the subscription event is received.
 	OnUnsubscribe func(message.Subscriber, *event.Subscription) bool // Delegate to invoke when the unsubscription event is received.
@@ -151,8 +152,8 @@ func (s *Swarm) onPeerOffline(name mesh.PeerName) {
 		// Range over all of the subscriptions we have
 		dead := &deadPeer{name: name}
 		s.state.SubscriptionsOf(name, func(ev *event.Subscription) {
+			s.state.Del(ev)           // Remove the state from ourselves (the handler below re-labels the event)
 			s.OnUnsubscribe(dead, ev) // Notify locally that the subscription is gone
-			s.state.Del(ev)           // Remove the state from ourselves
 		})
 
 		// If we're a fallback server, issue last will events
@@ -286,12 +287,13 @@ func (s *Swarm) merge(buf []byte) (mesh.GossipData, error) {
 	// Merge and get the delta
 	delta := s.state.Merge(other)
 	other.Subscriptions(func(ev *event.Subscription, v event.Value) {
+		key := ev.Key()
 		if ev.Peer == uint64(s.router.Ourself.Name) {
+			s.reconcile(key, ev)
 			return // Skip ourselves
 		}
 
 		// Find the active peer for this subscription event
-		key := ev.Key()
 		peer := s.findPeer(mesh.PeerName(ev.Peer))
 
 		// The delta only tells us which times have advanced, whether the subscription
@@ -315,6 +317,22 @@ func (s *Swarm) merge(buf []byte) (mesh.GossipData, error) {
 		return nil, nil
 	}
 	return payload{delta.(*event.State)}, nil
+}
+
+// reconcile makes the replicated view of one of our own subscriptions match
+// what this broker has actually announced. Peers remove our subscriptions when
+// they consider us offline; if we were merely unreachable for a while those
+// subscriptions are still alive here and must be asserted again. Conversely, a
+// subscription which is active in the cluster but was never announced by this
+// process belongs to a previous run of this broker and is withdrawn.
+func (s *Swarm) reconcile(key string, ev *event.Subscription) {
+	announced, ok := s.local.Load(key)
+	switch active := s.state.Has(ev); {
+	case ok && !active:
+		s.Notify(announced.(*event.Subscription), true)
+	case !ok && active:
+		s.Notify(ev, false)
+	}
 }
 
 // NumPeers returns the number of connected peers.
@@ -385,6 +403,14 @@ func (s *Swarm) OnGossipUnicast(src mesh.PeerName, buf []byte) (err error) {
 // Notify notifies the swarm when an event is on/off.
 func (s *Swarm) Notify(ev event.Event, enabled bool) {
 	op := event.NewState("")
+	if sub, ok := ev.(*event.Subscription); ok {
+		if enabled {
+			s.local.Store(sub.Key(), sub)
+		} else {
+			s.local.Delete(sub.Key())
+		}
+	}
+
 	if enabled {
 		s.state.Add(ev)
 		op.Add(ev)
